@@ -95,6 +95,15 @@ class Data:
         self.n = len(case["obs"])
         self.obs = np.array(case["obs"], dtype=np.float64)
         self.ens = np.array(case["ens"], dtype=np.float64)
+        rep = case.get("rep", 1)
+        if rep > 1:
+            # long record: the drawn block repeated with offsets (values
+            # stay distinct where they were)
+            self.obs = np.concatenate([self.obs + 101.0 * j
+                                       for j in range(rep)])
+            self.ens = np.vstack([self.ens + 101.0 * j + 0.37 * (j % 3)
+                                  for j in range(rep)])
+            self.n = len(self.obs)
         self.sim = self.obs + 0.3 * self.ens[:, 0]
         self.m = self.ens.shape[1]
 
@@ -795,7 +804,9 @@ def oracle(case):
     before = [snap(a) for a in args]
     labels = [f"layout:{case['layout']}", f"dtype:{case['dtype']}",
               f"container:{case['container']}",
-              f"content:{case.get('content', 'plain')}"]
+              f"content:{case.get('content', 'plain')}",
+              "rows:" + ("<=40" if d.n <= 40 else "<=500" if d.n <= 500
+                         else ">500")]
     results, errors, snaps = [], [], []
     for k in range(2):
         if seeded:
@@ -869,6 +880,9 @@ def make_strategy(group):
                 "dtype": draw(st.sampled_from(DTYPES)),
                 "container": draw(st.sampled_from(CONTAINERS)),
                 "content": draw(st.sampled_from(CONTENTS)),
+                # records of several hundred to 1600 values now and then
+                # (internal size thresholds: resampling, kde grids)
+                "rep": draw(st.sampled_from([1, 1, 1, 1, 1, 13, 40])),
                 "seed": draw(st.integers(0, 2**31 - 1))}
     return lambda tier: cases()
 
@@ -889,6 +903,12 @@ def enum_group(group):
                         yield {"spec": nm, "obs": obs, "ens": ens,
                                "layout": lay, "dtype": dt, "container": ct,
                                "content": "plain", "seed": 7}
+            # long records (600 and 1512 rows)
+            for rep in (25, 63):
+                for ct in ("ndarray", "frame"):
+                    yield {"spec": nm, "obs": obs, "ens": ens, "layout": "C",
+                           "dtype": "float64", "container": ct,
+                           "content": "plain", "seed": 7, "rep": rep}
             # float64 C-contiguous arrays (not copied implicitly) with the
             # special contents
             for cc in sorted(set(CONTENTS) - {"plain"}):
